@@ -316,7 +316,7 @@ func explore(p *Program, opts RunOpts) (*RunResult, error) {
 				active++
 				n := rr.Paths + active
 				mu.Unlock()
-				want := opts.SampleEvery > 0 && n%opts.SampleEvery == 0
+				want := opts.SampleEvery > 0 && (n <= 40 || n%opts.SampleEvery == 0)
 				r := w.runPath(fn, pfx, nil, want)
 				mu.Lock()
 				active--
